@@ -73,8 +73,9 @@ def scenarios(full):
     return out
 
 
-def run(ctx, full=False, label="rogue-server"):
-    """run the scenario set; every completion is a witness with the concrete flight"""
+def run(ctx, full=False, label="rogue-server", only=None):
+    """run the scenario set; every completion is a witness with the concrete flight.
+    `only` = (offers, psk, cert, flight) re-executes one recorded scenario."""
     from aioquic import tls
     D.tap_extract()
     POST = tls.State.CLIENT_POST_HANDSHAKE
@@ -82,7 +83,11 @@ def run(ctx, full=False, label="rogue-server"):
     victim_cert = None
     store = None
     n = hits = 0
-    for name, offers, psk, which, fl in scenarios(full):
+    todo = scenarios(full)
+    if only is not None:
+        o_, p_, w_, f_ = only
+        todo = [(f"replay offers={o_} psk={p_} cert={w_} flight={f_}", o_, p_, w_, list(f_))]
+    for name, offers, psk, which, fl in todo:
         if offers and store is None:
             store = S.ticket_store()
         c = D.client()                       # trusts tests/pycacert.pem only, verify_mode = CERT_REQUIRED
@@ -119,20 +124,22 @@ def run(ctx, full=False, label="rogue-server"):
                 f"client reached CLIENT_POST_HANDSHAKE (session_resumed={c.session_resumed}) with a server that holds "
                 f"neither a trusted certificate's private key nor a pre-shared key the client offered: {name}; "
                 f"client {'offered' if offers else 'did NOT offer'} a PSK",
-                {"scenario": name, "client_hello": p.client_hello.hex(), "server_messages": [m.hex() for m in sent],
+                {"kind": "rogue", "offers": offers, "psk": psk, "cert": which, "flight": fl,
+                 "scenario": name, "client_hello": p.client_hello.hex(), "server_messages": [m.hex() for m in sent],
                  "client_offered_psk": offers, "server_hello_pre_shared_key": psk},
                 {"oracle": "completes-without-authentication", "level": "tls", "rogue": "unsolicited-psk" if psk is not None
                  and not offers else ("unknown-psk" if offers else "no-certificate-proof"),
                  "processed": [m[0] for m in sent[1:]]})
     ctx.notes[label] = {"scenarios": n, "completed": hits}
-    hits += genuine_dfs(ctx, label + "-genuine")
+    if only is None:
+        hits += genuine_dfs(ctx, label + "-genuine")
     return hits
 
 
 LEGAL = {False: [[EE, CERT, CV, FIN], [EE, CR, CERT, CV, FIN]], True: [[EE, FIN]]}
 
 
-def genuine_dfs(ctx, label="genuine-server-repetitions", max_len=8, max_rep=2):
+def genuine_dfs(ctx, label="genuine-server-repetitions", max_len=8, max_rep=2, only=None):
     """Key-holding GENUINE server (trusted certificate, and the PSK when the client
     resumes) that sends ANY sequence of flight messages with repetitions — every
     message up to `max_rep` times, up to `max_len` messages — CertificateVerify and
@@ -165,16 +172,29 @@ def genuine_dfs(ctx, label="genuine-server-repetitions", max_len=8, max_rep=2):
         # the client holds and offers a real ticket; the genuine server does its own ECDHE only
         return S.resumed_pair(store, accept=False), False
 
+    def ec256():
+        idt = S.ident("ec256")
+        return D.Pair(D.client(ident=idt), D.server(ident=idt)), False
+
     total = hits = 0
-    for vname, mk in (("certificate", plain), ("client-auth", client_auth), ("resumed", resumed),
-                      ("ticket-not-honoured", ticket_not_honoured)):
+    completed = []
+    variants = [("certificate", plain), ("client-auth", client_auth), ("resumed", resumed),
+                ("ticket-not-honoured", ticket_not_honoured)]
+    if only is not None:       # `only` = (variant, flight): re-execute one recorded flight
+        variants = [(v, m) for v, m in variants + [("certificate-ec256", ec256)] if v == only[0]]
+    for vname, mk in variants:
         frontier = [[]]
         while frontier:
             prefix = frontier.pop()
             for t in (EE, CR, CERT, CV, FIN):
-                if prefix.count(t) >= max_rep or len(prefix) >= max_len:
+                if only is not None:
+                    if t != EE:
+                        continue
+                    seq = list(only[1])
+                elif prefix.count(t) >= max_rep or len(prefix) >= max_len:
                     continue
-                seq = prefix + [t]
+                else:
+                    seq = prefix + [t]
                 p, res = mk()
                 p.hello()
                 if p.serve() is not None or p.s.session_resumed != res:
@@ -196,6 +216,7 @@ def genuine_dfs(ctx, label="genuine-server-repetitions", max_len=8, max_rep=2):
                 if not ok:
                     continue
                 if p.c.state == POST:
+                    completed.append(seq)
                     if seq not in LEGAL[res]:
                         hits += 1
                         ctx.witness(
@@ -203,11 +224,26 @@ def genuine_dfs(ctx, label="genuine-server-repetitions", max_len=8, max_rep=2):
                             f"flight (legal: {LEGAL[res]}); every message was produced by a key-holding server, "
                             f"CertificateVerify / Finished recomputed over the transcript sent"
                             + ("; the client's peer certificate is None" if p.c._peer_certificate is None else ""),
-                            {"variant": vname, "flight": seq, "client_hello": p.client_hello.hex(),
+                            {"kind": "genuine", "variant": vname, "flight": seq, "client_hello": p.client_hello.hex(),
                              "server_messages": [f.sh.hex()] + [m.hex() for m in msgs],
                              "session_resumed": p.c.session_resumed},
                             {"oracle": "illegal-flight-completes", "level": "tls-dfs", "variant": vname, "flight": seq})
-                else:
+                elif only is None:
                     frontier.append(seq)
-    ctx.notes[label] = {"sequences": total, "illegal_completed": hits}
+    ctx.notes[label] = {"sequences": total, "illegal_completed": hits, "completed": len(completed)}
     return hits
+
+
+def replay(rep):
+    """re-execute a recorded rogue / genuine-server flight on the current tree;
+    returns the list of witnesses it produces again (empty = no longer failing)"""
+    from . import core
+    ctx = core.Ctx("replay", "quick")
+    if rep.get("kind") == "rogue":
+        run(ctx, label="replay", only=(rep["offers"], rep["psk"], rep["cert"], rep["flight"]))
+    elif rep.get("kind") == "genuine":
+        v = {"cert-rsa": "certificate", "cert-ec256": "certificate-ec256"}.get(rep["variant"], rep["variant"])
+        genuine_dfs(ctx, label="replay", only=(v, rep["flight"]))
+    else:
+        return None
+    return ctx.witnesses
